@@ -364,6 +364,8 @@ func (s *Scheme) runDKG(ctx context.Context, membership *membership, dkgProtocol
 		result, err := dkgProtocolInstance.KeyGen(ctx)
 
 		resultChan <- mpcResult{data: result, err: err, parties: parties}
+
+		verifYield("KeyGen:callback:result-pushed")
 	}
 
 	go func() {
@@ -538,6 +540,8 @@ func (s *Scheme) Sign(c context.Context, msgHash []byte, topic string) ([]byte, 
 				sig []byte
 				err error
 			}{sig: signature, err: err}
+
+			verifYield("Sign:callback:result-pushed")
 		}, syncTopic, len(signers), SyncInterval)
 		if err != nil {
 			// suppress error in case we signed successfully
